@@ -640,18 +640,32 @@ def check_chooser(ctx, b, group="FRESH", tag="chooser"):
     """the name chooser `choose_fresh_variable_names(variables, variant, arity)`: candidates are the prefix (only when free) and prefix + number;
     a candidate is redrawn while it is taken OR already handed out; `taken` holds the name of every variable of the argument"""
     fx = ctx.facts
-    # the while loop re-draws a candidate as long as it is taken or already chosen
-    conds = []
-    for n in hq.nodes(b["body"], "Loop"):
-        pass
-    whiles = [n for n in hq.walk_all(b["body"]) if n.get("k") == "If" and n.get("desugar") == "WhileLoop"] if hasattr(hq, "walk_all") else []
-    src = fx.read_source(b["file"])
+    from ..facts import walk, local_id_of, strip
     ev = sym.Eval(fx, inline_depth=0)
     ev.function(b, [P("$variables"), P("$variant"), P("$arity")])
-    # structural facts from the typed HIR: the `contains` tests inside the loop condition
-    from ..facts import walk
-    cont = [c for c in walk(b["body"]) if c.get("k") == "MethodCall" and c["method"] == "contains"]
-    recv = sorted(hq.render(c["recv"]) if hasattr(hq, "render") else "?" for c in cont)
+    # the locals by their role, not by their name: `fresh` is what the function returns; `taken` is the list that receives the name of every
+    # element of the first parameter
+    tail = b["body"].get("expr")
+    fresh_id = local_id_of(tail) if tail is not None else None
+    from ..facts import pat_bindings
+    id_name = {}
+    for n_ in walk(b["body"]):
+        if n_.get("k") == "LetStmt":
+            for pb in pat_bindings(n_["pat"]):
+                id_name[pb["id"]] = pb["name"]
+    for p_ in b["params"]:
+        for pb in pat_bindings(p_):
+            id_name[pb["id"]] = pb["name"]
+    fresh_name = id_name.get(fresh_id)
+    taken_name = None
+    for nm, vals in ev.last_env.items():
+        t = vals[-1]
+        if nm != fresh_name and isinstance(t, tuple) and t[:1] == ("upd",) and t[2] in ("push", "insert") and isinstance(t[1], tuple) and t[1][:1] == ("acc",) \
+                and t[1][1][:1] == ("call",) and t[1][1][1].endswith("::new") and "each" in key(t[3]) and "$variables" in key(t[3]) and (".name" in key(t[3]) or "'name'" in key(t[3])):
+            taken_name = nm
+    taken_ids = {i_ for i_, n_ in id_name.items() if n_ == taken_name}
+    fresh_ids = {i_ for i_, n_ in id_name.items() if n_ == fresh_name}
+    # the while loop re-draws a candidate as long as it is taken or already chosen
     loops = [n for n in walk(b["body"]) if n.get("k") == "Loop"]
     in_while = []
     for lp in loops:
@@ -660,17 +674,15 @@ def check_chooser(ctx, b, group="FRESH", tag="chooser"):
                 if c.get("k") == "If":
                     cc = [x for x in walk(c["cond"]) if x.get("k") == "MethodCall" and x["method"] == "contains"]
                     if cc:
-                        in_while = [hq.render(x["recv"]) for x in cc]
+                        in_while = ["taken" if local_id_of(x["recv"]) in taken_ids else ("fresh" if local_id_of(x["recv"]) in fresh_ids else hq.render(x["recv"])) for x in cc]
                         or_ = [x for x in walk(c["cond"]) if x.get("k") == "Binary" and x.get("op") == "Or"]
                         in_while.append("||" if or_ else "?")
                     break
-    ctx.add(group, tag + ":loop", sorted(x for x in in_while if x != "||") == ["fresh_vars", "taken_vars"] and "||" in in_while, ctx.site(b),
-            "a candidate is redrawn while it is in taken_vars OR in fresh_vars (names already handed out): %s" % in_while)
-    # taken_vars holds the name of every element of `variables`
-    tv = ev.bound.get("taken_vars", [])
-    last = ev.last_env.get("taken_vars", [None])[-1]
-    ok = last is not None and "each" in key(last) and "$variables" in key(last) and "push" in key(last) and ".name" in key(last) or (last is not None and "'name'" in key(last))
-    ctx.add(group, tag + ":taken-all", bool(ok), ctx.site(b), "taken_vars receives the name of every variable of the `variables` argument: %s" % rn(ftpl.NF().gen(last) if last else None))
+    ctx.add(group, tag + ":loop", sorted(x for x in in_while if x != "||") == ["fresh", "taken"] and "||" in in_while, ctx.site(b),
+            "a candidate is redrawn while it is in the taken names (`%s`) OR among the names already handed out (`%s`): %s" % (taken_name, fresh_name, in_while))
+    # taken holds the name of every element of `variables`
+    last = ev.last_env.get(taken_name, [None])[-1] if taken_name else None
+    ctx.add(group, tag + ":taken-all", last is not None, ctx.site(b), "a list receives the name of every variable of the `variables` argument: %s" % rn(ftpl.NF().gen(last) if last else None))
     # the plain variant is only used when not taken
     m = [n for n in walk(b["body"]) if n.get("k") == "Match" and any(x.get("k") == "MethodCall" and x["method"] == "contains" for x in walk(n["scrut"]))]
     okm = False
@@ -681,13 +693,13 @@ def check_chooser(ctx, b, group="FRESH", tag="chooser"):
         if f_arm and t_arm:
             pushes_f = [x for x in walk(f_arm["body"]) if x.get("k") == "MethodCall" and x["method"] == "push"]
             pushes_t = [x for x in walk(t_arm["body"]) if x.get("k") == "MethodCall" and x["method"] == "push"]
-            okm = len(pushes_f) == 1 and not pushes_t and "taken_vars" in hq.render(m[0]["scrut"])
-    ctx.add(group, tag + ":plain-variant", okm, ctx.site(b), "the undecorated prefix itself is handed out only when taken_vars does not contain it")
-    # candidates are prefix + number
-    cands = ev.bound.get("candidate", [])
-    ctx.add(group, tag + ":candidate-shape", any("push_str" in key(c) and "$variant" in key(c) for c in ev.last_env.get("candidate", []) + cands), ctx.site(b),
+            sc_recv = [local_id_of(x["recv"]) for x in walk(m[0]["scrut"]) if x.get("k") == "MethodCall" and x["method"] == "contains"]
+            okm = len(pushes_f) == 1 and not pushes_t and bool(sc_recv) and all(r_ in taken_ids for r_ in sc_recv)
+    ctx.add(group, tag + ":plain-variant", okm, ctx.site(b), "the undecorated prefix itself is handed out only when the taken names do not contain it")
+    # candidates are prefix + number: what is pushed into the result inside the numbered loop
+    pushed = [t for vals in ev.bound.values() for t in vals] + [t for vals in ev.last_env.values() for t in vals]
+    ctx.add(group, tag + ":candidate-shape", any(isinstance(c, tuple) and "push_str" in key(c) and "$variant" in key(c) for c in pushed), ctx.site(b),
             "every candidate is the prefix followed by a decimal number")
-
 
 
 def rule_globals(ctx):
